@@ -1,6 +1,7 @@
 //! C08, class `syntax`: programs over the sublanguage of Model/Syntax.lean (definitions, assignments and
-//! op-assignments over formulas whose operands are literals, names, calls, matrix literals, tuples, sets,
-//! subscripted names, parenthesised formulas, prefixed and transposed operands, and ranges).
+//! op-assignments over formulas whose operands are literals, names, calls with positional and named arguments, matrix
+//! literals, tuples, sets, records, maps, subscripted names, parenthesised formulas, prefixed and transposed operands,
+//! and ranges).
 //! Case: `fmt  syntax  <hex of the source>  <tokens>`; the tokens are what the model parses:
 //!   L<text> literal   I<name> name   ( ) [ ] { }   , ; _ (element separator) :   .. ..=
 //!   <operator name of c02::BINOPS>   neg (the character `-` before an operand)   not   tr
@@ -74,7 +75,7 @@ fn sx_expr(e: &Expression) -> String {
     Expression::Var(v) => if v.kind.is_some() { format!("var?{}", v.name.to_string()) } else { v.name.to_string() },
     Expression::Literal(l) => toks(l.tokens()),
     Expression::FunctionCall(c) => {
-      let args: Vec<String> = c.args.iter().map(|(n, e)| if n.is_some() { "named?".to_string() } else { sx_expr(e) }).collect();
+      let args: Vec<String> = c.args.iter().map(|(n, e)| match n { Some(n) => format!("(named {} {})", n.to_string(), sx_expr(e)), None => sx_expr(e) }).collect();
       if args.is_empty() { format!("(call {})", c.name.to_string()) } else { format!("(call {} {})", c.name.to_string(), args.join(" ")) }
     }
     Expression::Slice(s) => format!("(slice {} {})", s.name.to_string(), sx_subs(&s.subscript)),
@@ -85,6 +86,9 @@ fn sx_expr(e: &Expression) -> String {
     Expression::Structure(Structure::Tuple(t)) => if t.elements.is_empty() { "(tup)".to_string() } else { format!("(tup {})", t.elements.iter().map(sx_expr).collect::<Vec<_>>().join(" ")) },
     Expression::Structure(Structure::Set(s)) => if s.elements.is_empty() { "(set)".to_string() } else { format!("(set {})", s.elements.iter().map(sx_expr).collect::<Vec<_>>().join(" ")) },
     Expression::Structure(Structure::Empty) => "(set)".to_string(),
+    Expression::Structure(Structure::Record(r)) => format!("(rec {})", r.bindings.iter().map(|b| format!("(bind {} {} {})", b.name.to_string(),
+      match &b.kind { Some(k) => toks(k.tokens()), None => "-".to_string() }, sx_expr(&b.value))).collect::<Vec<_>>().join(" ")),
+    Expression::Structure(Structure::Map(m)) => if m.elements.is_empty() { "(map)".to_string() } else { format!("(map {})", m.elements.iter().map(|e| format!("(kv {} {})", sx_expr(&e.key), sx_expr(&e.value))).collect::<Vec<_>>().join(" ")) },
     other => format!("expr?{:?}", std::mem::discriminant(other)),
   }
 }
@@ -139,13 +143,18 @@ impl<'a> G<'a> {
     let pre = self.rng.below(10);
     if pre == 0 { self.put("neg", "-"); self.sink.hit("syntax:neg"); self.factor(depth); return; }
     if pre == 1 { self.put("not", "!"); self.sink.hit("syntax:not"); self.factor(depth); return; }
-    let choice = if depth == 0 { self.rng.below(2) } else { self.rng.below(12) };
+    let choice = if depth == 0 { self.rng.below(2) } else { self.rng.below(15) };
     match choice {
       0 => { let l = *self.rng.pick(LITS); self.put(&format!("L{}", l), l); }
       1 | 2 | 3 => { let n = *self.rng.pick(NAMES); self.put(&format!("I{}", n), n); }
       4 => { // call
         let f = *self.rng.pick(FUNS); self.put(&format!("I{}", f), f); self.put("(", "(");
-        let n = self.rng.below(4); for i in 0..n { if i > 0 { self.put(",", ", "); } self.expr(depth - 1); }
+        let n = self.rng.below(4);
+        for i in 0..n {
+          if i > 0 { self.put(",", ", "); }
+          if self.rng.chance(1, 3) { let a = *self.rng.pick(NAMES); self.put(&format!("I{}", a), a); self.put(":", ": "); self.sink.hit("syntax:named-argument"); }
+          self.expr(depth - 1);
+        }
         self.put(")", ")"); self.sink.hit("syntax:call"); }
       5 | 6 => { // matrix
         self.put("[", "[");
@@ -161,7 +170,26 @@ impl<'a> G<'a> {
         self.put("}", "}"); self.sink.hit("syntax:set"); }
       9 | 10 => { // subscripted name
         let n = *self.rng.pick(NAMES); self.put(&format!("I{}", n), n); self.subs(depth - 1); self.sink.hit("syntax:slice"); }
-      _ => { self.put("(", "("); self.formula(depth - 1); self.put(")", ")"); self.sink.hit("syntax:paren"); }
+      11 => { self.put("(", "("); self.formula(depth - 1); self.put(")", ")"); self.sink.hit("syntax:paren"); }
+      12 => { // record: bindings, some with a kind annotation
+        self.put("{", "{"); let n = 1 + self.rng.below(3);
+        for i in 0..n {
+          if i > 0 { self.put(",", ", "); }
+          let a = *self.rng.pick(NAMES); self.put(&format!("I{}", a), a);
+          if self.rng.chance(1, 3) { let k = *self.rng.pick(KINDS); self.put(&format!("K{}", hexs(k)), &format!("<{}>", k)); }
+          self.put(":", ": "); self.expr(depth - 1);
+        }
+        self.put("}", "}"); self.sink.hit("syntax:record"); }
+      _ => { // map: the empty map, or keys that are literals, names or any expression (all keys bare names: a record)
+        self.put("{", "{"); let n = self.rng.below(4);
+        if n == 0 { self.put(":", ":"); self.sink.hit("syntax:map-empty"); }
+        for i in 0..n {
+          if i > 0 { self.put(",", ", "); }
+          match self.rng.below(5) { 0 | 1 | 2 => { let l = *self.rng.pick(LITS); self.put(&format!("L{}", l), l); }, 3 => { let a = *self.rng.pick(NAMES); self.put(&format!("I{}", a), a); }, _ => { // a key that starts with `!` is written `¬…` by the formatter and read back as a binding name (defect of /repo, reported): not generated
+              loop { let (tl, xl) = (self.toks.len(), self.text.len()); self.expr(depth - 1); if self.toks[tl] != "not" { break; } self.toks.truncate(tl); self.text.truncate(xl); } } }
+          self.put(":", ": "); self.expr(depth - 1);
+        }
+        self.put("}", "}"); self.sink.hit("syntax:map"); }
     }
     if self.rng.chance(1, 10) { self.put("tr", "'"); self.sink.hit("syntax:transpose"); }
   }
